@@ -54,12 +54,17 @@ type World struct {
 	cause    string
 	exec     *hx.Exec   // the execution layer (and its mempool) outlives a restart of the node
 	released [][][]byte // ghost: non-empty batches released by the sequencing layer, in order
-	dupResp  bool       // some mempool response held the same bytes twice
 	// lossCause: for a transaction of a released batch that was found neither in the chain, nor in the block waiting
 	// at height+1, nor (again) in the sequencer's queue after some operation: what that operation was
 	lossCause map[string]string
 	// handedBefore: len(handed) before the last operation if that was a reap, -1 otherwise
 	handedBefore int
+	lastBatch    [][]byte        // what the last operation handed over, if it was a reap
+	relBefore    int             // len(released) before the last operation, if that was a production step (-1 otherwise)
+	dupHanded    map[string]bool // handed over twice by ONE hand-off: the mempool response held the bytes twice
+	dupExcused   map[string]bool // a crash fell between the queue write of its hand-off and its seen-mark: may be handed over again
+	fromAtCrash  int
+	notHanded    map[string]string // draining mempool: taken by a GetTxs call but not handed over -> why
 }
 
 func describe(ws hx.WriteSet) string {
@@ -167,9 +172,10 @@ func Run(c *hx.Ctx) {
 			return
 		}
 		c.Hit(o.Verb)
-		hb := w.handedBefore
+		hb, lb, rb := w.handedBefore, w.lastBatch, w.relBefore
 		if o.Verb != "mempool" && o.Verb != "drain" {
-			w.handedBefore = -1 // `mempool` and `drain` write nothing: the last operation with durable writes stays the last
+			// (`mempool` and `drain` write nothing: the last operation with durable writes stays the last)
+			w.handedBefore, w.lastBatch, w.relBefore = -1, nil, -1
 		}
 		if o.Verb != "reset" && (w.env == nil || w.dead) {
 			c.Emit("dead")
@@ -179,33 +185,62 @@ func Run(c *hx.Ctx) {
 		case "reset":
 			w.opt = bm.Options{InitialHeight: 1, GenesisTime: time.Unix(0, o.I64("gt")), Aggregator: true}
 			w.qmax = o.Int("qmax")
-			w.handed, w.crashed, w.cause, w.released, w.dupResp = nil, false, "", nil, false
+			w.handed, w.crashed, w.cause, w.released = nil, false, "", nil
 			w.lossCause = map[string]string{}
+			w.dupHanded, w.dupExcused, w.notHanded = map[string]bool{}, map[string]bool{}, map[string]string{}
+			w.lastBatch, w.relBefore = nil, -1
 			w.exec = &hx.Exec{}
 			c.Emit("%s", w.start(nil))
 		case "mempool":
+			// mode=drain: GetTxs is destructive (the in-repo reference executor's is): every transaction is answered once
 			w.env.Exec.Mempool = o.List("txs")
-			for i, a := range w.env.Exec.Mempool {
-				for _, b := range w.env.Exec.Mempool[:i] {
-					if bytes.Equal(a, b) {
-						w.dupResp = true
-					}
-				}
-			}
+			w.env.Exec.Drain = o.Str("mode") == "drain"
 			c.Emit("ok")
 		case "reap":
 			e := w.env
 			before := e.Height()
 			w.from = e.DS.NumWrites()
-			seenBefore := w.count("/reap/")
 			qBefore := w.count("/seq/")
 			w.handedBefore = len(w.handed)
+			offered := append([][]byte(nil), e.Exec.Mempool...)
+			drainMode := e.Exec.Drain
+			unseen := map[string]int{} // not marked before this round: how often in this response
+			for _, tx := range offered {
+				if !w.isSeen(tx) {
+					unseen[string(tx)]++
+				}
+			}
 			w.reaper.SubmitTxs()
 			// ghost: after a successful hand-off the transactions are marked as seen
-			if w.count("/seq/") > qBefore || w.count("/reap/") > seenBefore {
-				w.recordHandOff()
+			for _, tx := range offered {
+				k := string(tx)
+				if unseen[k] == 0 {
+					continue
+				}
+				if w.isSeen(tx) {
+					n := unseen[k]
+					unseen[k] = 0
+					if n > 1 {
+						w.dupHanded[k] = true // the response holds the bytes twice: both copies are handed over
+					}
+					for ; n > 0; n-- {
+						w.handed = append(w.handed, tx)
+						w.lastBatch = append(w.lastBatch, tx)
+					}
+					delete(w.notHanded, k)
+				} else if drainMode {
+					// taken from a draining mempool and not handed over: nobody will ever offer it again
+					if _, ok := w.notHanded[k]; !ok {
+						if w.qmax > 0 && qBefore >= w.qmax {
+							w.notHanded[k] = "refused-handoff-with-draining-mempool"
+						} else {
+							w.notHanded[k] = "not-handed-over-with-draining-mempool"
+						}
+					}
+				}
 			}
 			c.Emit("reap %s", w.observe(before))
+			w.track("after-reap", nil)
 		case "produce":
 			e := w.env
 			before := e.Height()
@@ -214,6 +249,7 @@ func Run(c *hx.Ctx) {
 			// followed by `restart` this is also "the node dies while the execution layer works on the block"
 			fail := o.Str("exec") == "fail"
 			w.exec.Fail = fail
+			w.relBefore = len(w.released)
 			err := e.M.VerifPublishBlock(context.Background())
 			w.exec.Fail = false
 			cls := "nil"
@@ -223,13 +259,14 @@ func Run(c *hx.Ctx) {
 			c.Emit("produce out=%s %s", cls, w.observe(before))
 			if fail {
 				c.Hit("produce-exec-fail")
-				w.track("after-execution-failure")
+				w.track("after-execution-failure", nil)
 			} else {
-				w.track("after-production-step")
+				w.track("after-production-step", nil)
 			}
 		case "restart", "crash":
 			e := w.env
 			n := e.DS.NumWrites()
+			w.fromAtCrash = w.from
 			keep := n
 			if o.Verb == "crash" {
 				if k := o.Int("keep"); w.from+k < n {
@@ -253,9 +290,25 @@ func Run(c *hx.Ctx) {
 			if w.dead {
 				c.Report("C11/restart-fails", "node does not start after "+o.Verb)
 			} else if cut {
-				w.track(w.cause)
+				// the batch in flight at the crash: released by the production step / handed over by the reap that was cut
+				inflight := map[string]bool{}
+				if rb >= 0 {
+					for _, b := range w.released[rb:] {
+						for _, tx := range b {
+							inflight[string(tx)] = true
+						}
+					}
+				}
+				for _, tx := range lb {
+					inflight[string(tx)] = true
+					if keep > w.fromAtCrash && !w.isSeen(tx) {
+						// queue write durable, this mark not: the transaction is offered and handed over again
+						w.dupExcused[string(tx)] = true
+					}
+				}
+				w.track(w.cause, inflight)
 			} else {
-				w.track("after-restart")
+				w.track("after-restart", nil)
 			}
 		case "drain":
 			// quiescence: reap until nothing is new, produce until the queue is empty, then check conservation
@@ -306,18 +359,10 @@ func containsTx(l [][]byte, tx []byte) bool {
 
 func (w *World) wasHanded(tx []byte) bool { return containsTx(w.handed, tx) }
 
-// recordHandOff: after a successful SubmitTxs, everything in the mempool that is marked seen now was handed over
-func (w *World) recordHandOff() {
-	e := w.env
-	store := namespace.Wrap(e.DS, ds.NewKey("reap"))
-	var batch [][]byte
-	for _, tx := range e.Exec.Mempool {
-		has, _ := store.Has(context.Background(), ds.NewKey(hashTx(tx)))
-		if has && !w.wasHanded(tx) {
-			batch = append(batch, tx)
-		}
-	}
-	w.handed = append(w.handed, batch...)
+// isSeen: the reaper's durable mark of the transaction
+func (w *World) isSeen(tx []byte) bool {
+	has, _ := namespace.Wrap(w.env.DS, ds.NewKey("reap")).Has(context.Background(), ds.NewKey(hashTx(tx)))
+	return has
 }
 
 // checkConservation: every transaction handed to the sequencing layer is in a committed block, in hand-off order;
@@ -335,31 +380,42 @@ func (w *World) checkConservation() {
 		}
 	}
 	dur := w.durableTxs()
-	for _, tx := range w.handed {
-		if !containsTx(chain, tx) && !dur[string(tx)] {
-			sig := "C11/lost/other"
-			if cause, ok := w.lossCause[string(tx)]; ok {
-				// the operation after which the released batch was in no block, not waiting at height+1 and not queued
-				sig = "C11/lost/" + cause
-			} else if w.crashed {
-				sig = "C11/lost/" + w.cause
-			}
-			c.Report(sig, fmt.Sprintf("transaction %s was taken from the mempool and handed to the sequencer but is in no block", hx.Hex(tx)))
-			break
+	reported := map[string]bool{}
+	report := func(sig, what string) {
+		if !reported[sig] {
+			reported[sig] = true
+			c.Report(sig, what)
 		}
 	}
-	if !w.crashed {
-		seen := map[string]int{}
-		for _, tx := range chain {
-			seen[string(tx)]++
-			if seen[string(tx)] == 2 {
-				if w.dupResp {
-					c.Report("C11/twice/same-bytes-twice-in-one-mempool-response", fmt.Sprintf("transaction %s is included twice", hx.Hex(tx)))
-				} else {
-					c.Report("C11/twice/other", fmt.Sprintf("transaction %s is included twice", hx.Hex(tx)))
-				}
-				break
+	for _, tx := range w.handed {
+		if !containsTx(chain, tx) && !dur[string(tx)] {
+			// the operation after which the transaction was in no block, not waiting at height+1 and not queued names the
+			// cause; a loss no operation of the scenario explains is `other`
+			sig := "C11/lost/other"
+			if cause, ok := w.lossCause[string(tx)]; ok {
+				sig = "C11/lost/" + cause
 			}
+			report(sig, fmt.Sprintf("transaction %s was taken from the mempool and handed to the sequencer but is in no block", hx.Hex(tx)))
+		}
+	}
+	for k, cause := range w.notHanded {
+		if !containsTx(chain, []byte(k)) && !dur[k] {
+			report("C11/lost/"+cause, fmt.Sprintf("transaction %s was taken from the (draining) mempool, never handed to the sequencer and is in no block", hx.Hex([]byte(k))))
+		}
+	}
+	// no transaction twice — unless a crash fell between the queue write of its hand-off and its seen-mark (then it is
+	// offered and handed over again: allowed by the property); the check stays armed for every other transaction
+	count := map[string]int{}
+	for _, tx := range chain {
+		k := string(tx)
+		count[k]++
+		if count[k] != 2 || w.dupExcused[k] {
+			continue
+		}
+		if w.dupHanded[k] {
+			report("C11/twice/same-bytes-twice-in-one-mempool-response", fmt.Sprintf("transaction %s is included twice", hx.Hex(tx)))
+		} else {
+			report("C11/twice/other", fmt.Sprintf("transaction %s is included twice", hx.Hex(tx)))
 		}
 	}
 	// batches are included in the order the sequencing layer released them: the non-empty blocks of the chain,
@@ -455,19 +511,30 @@ func decodeBatch(v []byte) [][]byte {
 // track: after an operation, every transaction of every batch the sequencing layer released must be durable somewhere
 // (a committed block, the block waiting at height+1, or the queue again); the first operation after which it is not
 // names the cause of the loss that checkConservation reports when the transaction never reaches a block.
-func (w *World) track(cause string) {
+func (w *World) track(cause string, inflight map[string]bool) {
 	if w.dead || w.env == nil {
 		return
 	}
 	dur := w.durableTxs()
+	mark := func(tx []byte) {
+		k := string(tx)
+		if dur[k] {
+			delete(w.lossCause, k)
+		} else if _, ok := w.lossCause[k]; !ok {
+			c := cause
+			if inflight != nil && !inflight[k] {
+				// a crash explains the loss of the batch that was in flight, of nothing else
+				c += "/not-the-batch-in-flight"
+			}
+			w.lossCause[k] = c
+		}
+	}
+	for _, tx := range w.handed {
+		mark(tx)
+	}
 	for _, b := range w.released {
 		for _, tx := range b {
-			k := string(tx)
-			if dur[k] {
-				delete(w.lossCause, k)
-			} else if _, ok := w.lossCause[k]; !ok {
-				w.lossCause[k] = cause
-			}
+			mark(tx)
 		}
 	}
 }
